@@ -5,6 +5,7 @@ cd /verif
 ids=${@:-$(ls seeded)}
 for id in $ids; do
   prop=${id%%_*}
+  if grep -q '"retired"' /verif/seeded/$id/meta.json; then continue; fi
   if [ -n "$(git -C /repo status --porcelain)" ]; then echo "/repo not clean"; exit 3; fi
   if ! git -C /repo apply --check /verif/seeded/$id/patch.diff 2>/dev/null; then echo "$id NOAPPLY"; continue; fi
   git -C /repo apply /verif/seeded/$id/patch.diff
